@@ -260,10 +260,18 @@ def start_and_snapshot(rep, shard, d, w, keys, log, trace=None):
             if why.startswith("ports:") or why.startswith("rc=None"):
                 rep.inconclusive("server not ready: " + why[:200])
             return None, "server did not come up (%s)" % why
-        try:
-            return snapshot_keys(port, keys), ""
-        except Exception as e:  # noqa
-            return None, "read failed: %r (alive=%s)" % (e, srv.alive())
+        for attempt in range(3):
+            try:
+                return snapshot_keys(port, keys), ""
+            except Exception as e:  # noqa
+                time.sleep(0.2)
+                if not srv.alive():
+                    # the process ended while answering reads on the state it had just recovered
+                    return None, "the server ended (rc=%s) while its recovered state was being read: %r" % (srv.p.poll(), e)
+                last = e
+        # alive but not answering: not something this check can attribute to the code under test
+        rep.inconclusive("a started server stopped answering reads while still alive: %r" % (last,))
+        return None, "rc=None: reads unanswered by a live process"
     finally:
         srv.kill9()
 
